@@ -402,6 +402,79 @@ def _param_cells_rule(ctx, program):
                   key=f"param cells {sig}", node=program.func(uid), rel="eval.py")
 
 
+SCOPE_PROBES = {
+    "sibling scopes: one declares global x, one closes over f's x": "def f(n):\n    x = 1\n    def a():\n        global x\n        x = 99\n    def b():\n        return x\n    return a, b\n",
+    "parameter rebound through nonlocal, sibling declares it global": "def f(n):\n    def inc():\n        nonlocal n\n        n += 1\n        return n\n    def g():\n        global n\n        n = 1000\n    return inc, g\n",
+    "class body declares global x": "def f():\n    x = 'local'\n    class K:\n        global x\n        x = 'from-class'\n    def r():\n        return x\n    return r\n",
+    "global declared two levels down": "def f():\n    x = 1\n    def a():\n        def b():\n            global x\n            x = 2\n        return b\n    return a, x\n",
+    "free variable of the enclosing function used directly": "def f():\n    return ov + 1\n",
+    "free variable used only by an inner function": "def f():\n    def g():\n        return ov\n    return g\n",
+    "global declaration hides the enclosing variable": "def f():\n    global ov\n    ov = 3\n    def g():\n        return 0\n    return g\n",
+    "nonlocal rebinding of the enclosing variable": "def f():\n    nonlocal ov\n    ov = 3\n",
+    "inner local shadows the enclosing variable": "def f():\n    def g():\n        ov = 1\n        return ov\n    y = 2\n    return g\n",
+    "nonlocal in an inner function refers to f's local": "def f():\n    c = 0\n    def g():\n        nonlocal c\n        c += 1\n    return g\n",
+    "no inner scope": "def f(a):\n    b = a + ov\n    return b\n",
+}
+
+
+def _scope_classes_rule(ctx, program):
+    """The name pre-pass (get_names / get_names_set / get_target_names, interpreted through resolve_nonlocals) classifies the names of a
+    function as the host's symtable does: locals get their own cell, free names the enclosing cell, declared globals neither."""
+    ctx.rule("R03.14", "scope classification: a function's locals (per the host's symtable) get their own closure cell, its free variables the enclosing "
+                       "function's cell, names it declares global neither - whatever global/nonlocal declarations nested scopes contain", floor=8)
+    uid = "eval.py::EvalFunc.resolve_nonlocals"
+    for label, src in SCOPE_PROBES.items():
+        whole = "def outer():\n    ov = 0\n    ow = 0\n" + "".join("    " + ln + "\n" for ln in src.splitlines()) + "    return f\n"
+        st = symtable.symtable(whole, "<probe>", "exec").get_children()[0].get_children()[0]
+        assert st.get_name() == "f"
+        syms = st.get_symbols()
+        want_local = sorted(x.get_name() for x in syms if x.is_local())
+        want_free = sorted(x.get_name() for x in syms if x.is_free())
+        want_glob = sorted(x.get_name() for x in syms if x.is_declared_global())
+        has_inner = any(ch.get_type() in ("function", "class") for ch in st.get_children())
+        fd = to_nodev(ast.parse(src).body[0])
+        pol = FlowPolicy(program, may_raise_all=False, cancel=False,
+                         inline={"EvalFunc.get_positional_args", "self.get_positional_args", "ast_ctx.get_names", "self.get_names_set", "self.get_target_names",
+                                 "self.check_for_closure", "self.get_names"},
+                         summaries={"self.ast_attribute_collapse": lambda i, n, a, k, c, o: [(c, NONE)]})
+        pol.loop_unroll = 12
+        pol.param_writeback = True
+        pol.inline_depth = 60
+        cells = {n: ObjV(f"cell_{n}", "EvalLocalVar") for n in ("ov", "ow")}
+        heap = {"self.func_def": fd, "self.has_closure": Const(False), "self.local_sym_table": DictV([]), "self.local_names": NONE,
+                "ast_ctx.sym_table_stack": ListV((DictV([]),), "list"),
+                "ast_ctx.sym_table": DictV([(Const(n), c) for n, c in cells.items()])}
+        out = run_flow(program, uid, pol, args={"self": ObjV("self", "EvalFunc"), "ast_ctx": ObjV("ast_ctx", "AstEval")}, heap=heap)
+        ex = exits(out)
+        problems = []
+        for k, c, d in ex:
+            if k != "return":
+                problems.append(f"ends with {d}")
+                continue
+            t = c.heap.get("self.local_sym_table")
+            if not isinstance(t, DictV):
+                problems.append(f"local table is {t!r}")
+                continue
+            own = sorted(x.v for x, v in t.items if isinstance(x, Const) and isinstance(v, App) and v.op == "new")
+            enclosing = sorted(x.v for x, v in t.items if isinstance(x, Const) and v in cells.values())
+            if has_inner and own != want_local:
+                problems.append(f"own cells for {own}, Python's locals are {want_local}")
+            if not has_inner and own:
+                problems.append(f"own cells {own} although the function has no inner scope")
+            missing = [n for n in want_free if n not in enclosing]
+            if missing:
+                problems.append(f"free variable(s) {missing} not bound to the enclosing function's cell")
+            wrong = [n for n in enclosing if n in want_local or n in want_glob]
+            if wrong:
+                problems.append(f"{wrong} bound to the enclosing function's cell although local/global here")
+        if not ex:
+            problems.append("no completed path")
+        ctx.check(not problems, "R03.14", uid, f"scope classes: {label}",
+                  msg=f"`{' / '.join(x.strip() for x in src.splitlines())}` ({label}): {'; '.join(dict.fromkeys(problems))}: closures read or rebind a different "
+                  f"variable than in Python (symtable: locals {want_local}, free {want_free}, global {want_glob})",
+                  key=f"scope classes {label}", node=program.func("eval.py::AstEval.get_names_set"), rel="eval.py")
+
+
 # ----------------------------------------------------------------------------------------------------
 CELL_PROBES = [
     ("x = a0", "exec"), ("x, y = (a0, a1)", "exec"), ("x += a0", "exec"), ("(x := a0)", "eval"),
@@ -591,6 +664,7 @@ def run(ctx):
     _binding_kinds_rule(ctx, program)
     _inner_def_rule(ctx, program)
     _param_cells_rule(ctx, program)
+    _scope_classes_rule(ctx, program)
     _scope_rules(ctx, program)
     _cell_rule(ctx, program)
     _scope_order_rule(ctx, program)
